@@ -15,6 +15,43 @@ def split(out):
     return out[:-6], [(t[0], t[1]), (t[2], t[3]), (t[4], t[5])]
 
 
+def read_caps(t, d):
+    """capacities of the buffers a read-type operation prints, or None"""
+    if t in (3, 19, 25):
+        return [d["rb"][2]]
+    if t in (5, 21, 26):
+        return [m[1] for m in d["rv"]]
+    return None
+
+
+def window_len(rb):
+    shape, ln, cap, a, b = rb
+    return {0: cap, 1: cap - a, 2: min(b, cap) - a}.get(shape, cap - ln)
+
+
+def split_ops(case, out):
+    """-> (per-operation token lists, tree tokens, flag tokens) of a well-formed result"""
+    ops = gen_c08.decode_ops(case)
+    body, flags = out[:-6], out[-6:]
+    i, parts = 0, []
+    for t, d in ops:
+        st = body[i]
+        if st in (3, 4):
+            n = 1
+        else:
+            n = 2
+            caps = read_caps(t, d)
+            if caps is not None:
+                n += sum(1 + c for c in caps)
+            elif st == 0 and t in (9, 10):
+                n = 4
+            elif st == 0 and t in (30, 32):
+                n = 2 + body[i + 1]
+        parts.append(body[i:i + n])
+        i += n
+    return parts, body[i:], flags
+
+
 def op_at(case, idx):
     """name of the 1-based operation index reported by the harness"""
     try:
@@ -90,24 +127,44 @@ class C08(diffcheck.DiffProp):
     def oracle(self, case, out):
         return oracle(case, out)
 
-    def known(self, case, out, what):
-        if not out:
-            return None
+    def zero_read_of_directory(self, case, out):
+        """the one known class: a zero-length read through a directory handle.  The
+        kernel's io_uring read answers 0 where read(2)/pread(2) answer EISDIR, so runs
+        A and C (ring) say Ok(0), runs B and D (syscall) say IsADirectory.  Returns the
+        1-based operation index or None."""
         s = split(out)
         if s is None:
             return None
-        _, flags = s
-        ids = set()
-        for which, (flag, idx) in enumerate(flags):
-            if flag == 1:
-                continue
-            t, _ = op_at(case, idx)
-            if which == 0 and t in (19, 20, 21, 22):
-                # sequential Read/Write on a regular file: epoll refuses regular files (EPERM)
-                ids.add("C08-poll-seq-regular-file")
-            else:
-                return None
-        return sorted(ids)[0] if len(ids) == 1 else None
+        (fb, ib), (fc, _), (fd, id_) = s[1]
+        if not (fb == 0 and fd == 0 and fc == 1 and ib == id_):
+            return None
+        try:
+            ops = gen_c08.decode_ops(case)
+            parts, _, _ = split_ops(case, out)
+        except (IndexError, KeyError):
+            return None
+        if not 1 <= ib <= len(ops):
+            return None
+        t, d = ops[ib - 1]
+        if t in (3, 19) and window_len(d["rb"]) == 0 and parts[ib - 1][:2] == [0, 0]:
+            return ib
+        return None
+
+    def known(self, case, out, what):
+        if out and self.zero_read_of_directory(case, out) is not None:
+            return "C08-iour-zero-length-read-of-directory"
+        return None
+
+    def model_expected(self, case, out):
+        """what the reference (= the OS's synchronous calls) must print for this
+        implementation output: identical, except inside the known class where the
+        designated io_uring run itself deviates from the OS at one operation"""
+        idx = self.zero_read_of_directory(case, out) if out else None
+        if idx is None:
+            return out
+        parts, tree, _ = split_ops(case, out)
+        parts[idx - 1] = [1, 33] + parts[idx - 1][2:]
+        return [x for p in parts for x in p] + tree + [1, 0, 1, 0, 1, 0]
 
 
 PROP = C08()
